@@ -171,6 +171,15 @@ int reb_integrator_trace_switch_peri_none(struct reb_simulation* const r, const 
     return 0;
 }
 
+// Runs the collision search and reports whether it found any colliding pair.
+// (r->N_allocated_collisions is the capacity of the list of pairs, which only grows when a pair is found. It never
+// shrinks, so it has to be cleared first to say something about this search rather than about the whole history.)
+static int reb_integrator_trace_collision_search(struct reb_simulation* const r){
+    r->N_allocated_collisions = 0;
+    reb_collision_search(r);
+    return r->N_allocated_collisions>0;
+}
+
 void reb_integrator_trace_inertial_to_dh(struct reb_simulation* r){
     struct reb_particle* restrict const particles = r->particles;
     struct reb_vec3d com_pos = {0};
@@ -450,8 +459,7 @@ void reb_integrator_trace_bs_step(struct reb_simulation* const r, double dt){
             r->particles[0].vy = star.vy;
             r->particles[0].vz = star.vz;
             
-	    reb_collision_search(r);
-	    if (r->N_allocated_collisions) ri_trace->force_accept = 1;
+	    if (reb_integrator_trace_collision_search(r)) ri_trace->force_accept = 1;
 
             if (nbody_ode->length != ri_trace->encounter_N*3*2){
 		// Just re-create the ODE
@@ -737,8 +745,7 @@ static void reb_integrator_trace_step(struct reb_simulation* const r){
                     if (dtsign*(r->t+r->dt) >  dtsign*t_needed){
                         r->dt = t_needed-r->t;
                     }
-                    reb_collision_search(r);
-		    if (r->N_allocated_collisions) r->ri_trace.force_accept = 1;
+                    if (reb_integrator_trace_collision_search(r)) r->ri_trace.force_accept = 1;
                 }
                 // Resetting IAS15 here reduces binary file size.
                 reb_integrator_ias15_reset(r);
@@ -785,8 +792,7 @@ static void reb_integrator_trace_step(struct reb_simulation* const r){
 
                         reb_integrator_bs_update_particles(r, nbody_ode->y);
 
-                        reb_collision_search(r);
-		        if (r->N_allocated_collisions) r->ri_trace.force_accept = 1;
+                        if (reb_integrator_trace_collision_search(r)) r->ri_trace.force_accept = 1;
                     }
                     reb_ode_free(nbody_ode);
                     // Resetting BS here reduces binary file size
